@@ -262,6 +262,14 @@ class HookInstaller(Contract):
         X.prove('raises.nothing', z3.BoolVal(False))
 
 
+def _loop_index(X):
+    """the hidden index of the for loop over the snapshot (the invariant is written for that loop)"""
+    ks = [k for k in X.env if k.startswith('__i')]
+    if not ks:
+        raise Unsupported('contract refers to the index of a for loop over the name index, which is not there')
+    return X.env[ks[0]].t
+
+
 class _LiveItems(Val):
     """named_routes.items(): a live view - iterating it while the dict is popped from is an error in Python"""
     def __init__(self, c):
@@ -312,7 +320,7 @@ class RemoveNamedRouters(Contract):
             j = X.fresh(IntSort, 'j')
             # names are distinct: the name identifies its entry
             X.assume(z3.Implies(z3.And(j >= 0, j < c.n), c.idx_of(c.name_of(j)) == j))
-            i = X.env[[k for k in X.env if k.startswith('__i')][0]].t - 1
+            i = _loop_index(X) - 1
             X.prove('pop.a_name_of_the_index', z3.And(i >= 0, i < c.n, key.t == c.name_of(i)))
             X.setg('popped', z3.Store(X.g('popped'), i, z3.BoolVal(True)))
             return c.route_at(i)
@@ -336,7 +344,7 @@ class RemoveNamedRouters(Contract):
         return None
 
     def _inv(self, X):
-        i = X.env[[k for k in X.env if k.startswith('__i')][0]].t
+        i = _loop_index(X)
         j = z3.Int('j!inv')
         return [('popped_so_far_are_exactly_the_names_bound_to_a_pattern_of_the_set',
                  z3.ForAll([j], X.g('popped')[j] == z3.And(j >= 0, j < i, self.in_set(self.pat_of(j)))))]
@@ -347,7 +355,7 @@ class RemoveNamedRouters(Contract):
 
     @property
     def loop_variant(self):
-        return {0: lambda X: self.n - X.env[[k for k in X.env if k.startswith('__i')][0]].t}
+        return {0: lambda X: self.n - _loop_index(X)}
 
     def havoc_override(self, X, k, name):
         return None
@@ -523,5 +531,88 @@ class RouterRemove(Contract):
         X.prove('raises.nothing', z3.BoolVal(False))
 
 
-CONTRACTS = [RemoveNamedRouters(), RouterRemove(), HookInstaller(), AddRoute(), RemoveRoute(), RemoveRouteHook(), RouteDecoratorInner(), OnRouteDecoratorInner(), RouteOuter(),
+class AppRemoveHook(Contract):
+    """Ombott.remove_hook(name, func): the function is taken out of the list of THAT hook name - one removal of that function -
+    exactly when it is in it (True is returned); otherwise nothing is changed."""
+    props = ('C03',)
+    file = 'ombott/ombott.py'
+    qualname = 'Ombott.remove_hook'
+    expected_labels = ('present.removed_once_from_the_list_of_that_name', 'absent.nothing_changed')
+
+    def pre(self, X):
+        self.name = X.fresh_str('name')
+        self.func = _opq(X, 'func', 'func')
+        self.present = X.fresh_bool('func_in_list')
+        self.lst = VObj('HookList', {})
+        self.table = VObj('HookTable', {})
+        self.keys, self.ops = [], []
+        c = self
+        self.stubs = {'HookList.remove': lambda X, a, k: (c.ops.append(('remove', list(a[1:]), dict(k))), NONE)[1]}
+        return {'self': VObj('App', {'_hooks': self.table}), 'name': self.name, 'func': self.func}
+
+    def getitem_hook(self, X, obj, key):
+        if obj is self.table:
+            self.keys.append(key)
+            return self.lst
+        return None
+
+    def contains_hook(self, X, container, item):
+        if container is self.lst:
+            self.asked = item
+            return self.present.t
+        return None
+
+    def post(self, X, ret):
+        right_list = bool(self.keys) and all(k is self.name for k in self.keys) and getattr(self, 'asked', None) is self.func
+        if self.ops:
+            ok = right_list and len(self.ops) == 1 and self.ops[0][1] == [self.func] and not self.ops[0][2] \
+                and isinstance(ret, VBool) and z3.is_true(z3.simplify(ret.t))
+            X.prove('present.removed_once_from_the_list_of_that_name', z3.And(z3.BoolVal(bool(ok)), self.present.t))
+        else:
+            X.prove('absent.nothing_changed', z3.And(z3.BoolVal(bool(right_list)), z3.Not(self.present.t)))
+
+    def post_raise(self, X, exc):
+        X.prove('raises.nothing', z3.BoolVal(False))
+
+
+class AppOn(Contract):
+    """Ombott.on(name, func): with a function, add_hook(name, func) once; without, the decorator is returned and nothing is added."""
+    props = ('C03',)
+    file = 'ombott/ombott.py'
+    qualname = 'Ombott.on'
+    expected_labels = ('with_func.added_once_under_that_name', 'without_func.decorator_returned_nothing_added')
+    defaults = {'func': 'None'}
+
+    def pre(self, X):
+        self.given = X.choose(2, 'func: None | given') == 1
+        self.fn = VObj('Callback', {}) if self.given else NONE
+        self.name = _opq(X, 'name')
+        self.calls, self.deco_calls = [], []
+        c = self
+        self.stubs = {'App.add_hook': lambda X, a, k: (c.calls.append((list(a[1:]), dict(k))), NONE)[1],
+                      'decorator': lambda X, a, k: (c.deco_calls.append(1), _opq(X, 'r'))[1]}
+        return {'self': VObj('App', {}), 'name': self.name, 'func': self.fn}
+
+    def post(self, X, ret):
+        if self.given:
+            ok = len(self.calls) == 1 and self.calls[0][0] == [self.name, self.fn] and not self.calls[0][1] and not self.deco_calls
+            X.prove('with_func.added_once_under_that_name', z3.BoolVal(bool(ok)))
+        else:
+            ok = not self.calls and not self.deco_calls and isinstance(ret, VFunc) and ret.name == 'decorator'
+            X.prove('without_func.decorator_returned_nothing_added', z3.BoolVal(bool(ok)))
+
+    def post_raise(self, X, exc):
+        X.prove('raises.nothing', z3.BoolVal(False))
+
+
+class AppOnDecoratorInner(_PassThrough):
+    props = ('C03',)
+    qualname = 'Ombott.on.decorator'
+    params = ('name', 'func')
+    callee = 'App.add_hook'
+    want_args = ('name', 'func')
+    returns = 'func'
+
+
+CONTRACTS = [AppRemoveHook(), AppOn(), AppOnDecoratorInner(), RemoveNamedRouters(), RouterRemove(), HookInstaller(), AddRoute(), RemoveRoute(), RemoveRouteHook(), RouteDecoratorInner(), OnRouteDecoratorInner(), RouteOuter(),
              OnRouteOuter(), GetHook()]
